@@ -50,6 +50,8 @@ FIELDS = {
     'updated_manifests': SetT(Str),
     # ghost text sink (file objects opened for writing are modelled as objects with one field)
     '_written': Str,
+    '_fed': Bytes,        # bytes fed so far to a hash object (A-hashlib: update is concatenation)
+    '_pos': Int,          # read position of a binary reader
     # openpgp
     'debug': Bool,
     '_home': Opt(Str),
